@@ -7,19 +7,29 @@ Cfg(id, power, last, maxMal, maxHdr, classes) ==
 All  == SlotClasses
 Core == SlotClasses \ {"nilSignedByOther", "otherBlockSignedByOther"}
 
-(* <= 2 malformations anywhere (3 and 4 validators, unequal powers); block 1; every commit over 3 slots (15^3) *)
-Q2  == Cfg("q",  <<1, 1, 2>>,    2, 2, 2, All)
+(* Power sets: the TOTAL is == 2 (mod 3) in q (8), s3 (5), p2 (2), v5 (5), s4 (8) - there floor(2T/3) and
+   2*floor(T/3) differ, so a threshold computed as T/3*2+1 is wrong - and == 0 / 1 in the others.  Every set is
+   explored down to the boundary tallies (largest power that is NOT > 2/3, smallest that is): s3, p2, s4, s4e are
+   full products over the slots, q / v5 / n4 reach the boundary with one or two missing slots. *)
+(* <= 2 malformations anywhere (3 and 4 validators, unequal powers); block 1; every commit over 3 and 2 slots;
+   five equal validators with <= 2 bad slots *)
+Q2  == Cfg("q",  <<3, 3, 2>>,    2, 2, 2, All)
 H1  == Cfg("h1", <<2, 2, 2, 1>>, 0, 3, 3, All)
-S3  == Cfg("s3", <<1, 2, 3>>,    1, 3, 0, All)
+S3  == Cfg("s3", <<1, 2, 2>>,    1, 3, 0, All)
 N4  == Cfg("n4", <<2, 2, 2, 1>>, 2, 2, 2, All)
-(* every commit over 4 slots (13^4), unequal powers; <= 3 bad slots of 4, equal powers; <= 3 malformations anywhere *)
+P2  == Cfg("p2", <<1, 1>>,       1, 2, 1, All)
+V5  == Cfg("v5", <<1, 1, 1, 1, 1>>, 1, 2, 0, Core)
+(* every commit over 4 slots (13^4), unequal powers; <= 3 bad slots of 4, equal powers; <= 3 malformations anywhere;
+   totals 4 and 6 *)
 S4  == Cfg("s4",  <<3, 2, 2, 1>>, 2, 4, 0, Core)
 S4E == Cfg("s4e", <<1, 1, 1, 1>>, 1, 3, 0, All)
 M3  == Cfg("m3",  <<2, 2, 3>>,    1, 3, 3, Core)
+Q4  == Cfg("q4",  <<1, 1, 2>>,    2, 2, 2, All)
+S6  == Cfg("s6",  <<1, 2, 3>>,    1, 3, 0, Core)
 (* sanity run *)
 O1  == Cfg("o1",  <<1, 1, 2>>,    2, 1, 1, All)
 
-QuickConfigs    == {Q2, H1, S3, N4}
-ThoroughConfigs == {S4, S4E, M3}
+QuickConfigs    == {Q2, H1, S3, N4, P2, V5}
+ThoroughConfigs == {S4, S4E, M3, Q4, S6}
 SanityConfigs   == {O1}
 =================================================================================
